@@ -54,6 +54,13 @@ func layoutData(specs []*corpus.Spec) (string, [][]string) {
 			prec := ""
 			if r.Prec != "" {
 				prec = dumpName(r.Prec)
+			} else {
+				tokPrec, _, _ := specPrec(s)
+				for _, x := range r.Rhs {
+					if s.TokIndex(x) >= 0 && tokPrec[x] > 0 {
+						prec = dumpName(x)
+					}
+				}
 			}
 			rs = append(rs, fmt.Sprintf("{Lhs: %s, Rhs: []string%s, Prec: %s, Action: %s}", q(r.Lhs), strs(rhs), q(prec), q(s.Action(k+1, false))))
 		}
